@@ -111,6 +111,17 @@ func (r *runner) compareRecord(path string, rec *auditRec, where string, o *Obs,
 	if !sameMap(rec.Params, t.Params) {
 		add("audit-params", fmt.Sprintf("%s: Params %v, expected %v", where, rec.Params, t.Params))
 	}
+	// absolute paths below the scenario's working directory are compared in their relative form
+	nOut := map[string]string{}
+	for k, v := range rec.OutFiles {
+		nOut[k] = normPath(v)
+	}
+	rec.OutFiles = nOut
+	nUp := map[string]*auditRec{}
+	for k, v := range rec.Upstream {
+		nUp[normPath(k)] = v
+	}
+	rec.Upstream = nUp
 	if !sameMap(rec.OutFiles, t.Outs) {
 		add("audit-outfiles", fmt.Sprintf("%s: OutFiles %v, expected %v", where, rec.OutFiles, t.Outs))
 	}
@@ -128,8 +139,13 @@ func (r *runner) compareRecord(path string, rec *auditRec, where string, o *Obs,
 		if a, ok := o.Tree[path+".audit.json"]; ok {
 			var disk auditRec
 			if json.Unmarshal([]byte(a), &disk) == nil {
+				dOut := map[string]string{}
+				for k, v := range disk.OutFiles {
+					dOut[k] = normPath(v)
+				}
+				disk.OutFiles = dOut
 				if disk.ProcessName != rec.ProcessName || disk.Command != rec.Command || !sameMap(disk.Params, rec.Params) || !sameMap(disk.Tags, rec.Tags) || !sameMap(disk.OutFiles, rec.OutFiles) {
-					add("audit-nested-differs", fmt.Sprintf("%s: the nested record differs from %s.audit.json (nested tags %v / params %v, on disk tags %v / params %v)", where, path, rec.Tags, rec.Params, disk.Tags, disk.Params))
+					add("audit-nested-differs", fmt.Sprintf("%s: the nested record differs from %s.audit.json (nested process %q command %q tags %v params %v out-files %v; on disk process %q command %q tags %v params %v out-files %v)", where, path, rec.ProcessName, rec.Command, rec.Tags, rec.Params, rec.OutFiles, disk.ProcessName, disk.Command, disk.Tags, disk.Params, disk.OutFiles))
 				}
 			}
 		}
